@@ -145,7 +145,13 @@ func (g *Generator) AdjustEnv(env []*nri.KeyValue) {
 	mod := map[string]*nri.KeyValue{}
 
 	for _, e := range env {
-		key, _ := nri.IsMarkedForRemoval(e.Key)
+		key, marked := nri.IsMarkedForRemoval(e.Key)
+		if old, ok := mod[key]; ok && marked {
+			// a set always wins over a removal of the same variable
+			if _, oldMarked := old.IsMarkedForRemoval(); !oldMarked {
+				continue
+			}
+		}
 		mod[key] = e
 	}
 
@@ -194,10 +200,15 @@ func (g *Generator) AdjustAnnotations(annotations map[string]string) error {
 	if annotations, err = g.filterAnnotations(annotations); err != nil {
 		return err
 	}
-	for k, v := range annotations {
+	// Apply removals first so that a set always wins over a removal of
+	// the same key, independent of map iteration order.
+	for k := range annotations {
 		if key, marked := nri.IsMarkedForRemoval(k); marked {
 			g.RemoveAnnotation(key)
-		} else {
+		}
+	}
+	for k, v := range annotations {
+		if _, marked := nri.IsMarkedForRemoval(k); !marked {
 			g.AddAnnotation(k, v)
 		}
 	}
@@ -342,12 +353,19 @@ func (g *Generator) AdjustOomScoreAdj(score *nri.OptionalInt) {
 
 // AdjustDevices adjusts the (Linux) devices in the OCI Spec.
 func (g *Generator) AdjustDevices(devices []*nri.LinuxDevice) {
+	// Apply removals first so that a set always wins over a removal of
+	// the same device, independent of their order in the adjustment.
+	for _, d := range devices {
+		if key, marked := d.IsMarkedForRemoval(); marked {
+			g.RemoveDevice(key)
+		}
+	}
 	for _, d := range devices {
 		key, marked := d.IsMarkedForRemoval()
-		g.RemoveDevice(key)
 		if marked {
 			continue
 		}
+		g.RemoveDevice(key)
 		g.AddDevice(d.ToOCI())
 		major, minor, access := &d.Major, &d.Minor, d.AccessString()
 		g.AddLinuxResourcesDevice(true, d.Type, major, minor, access)
@@ -391,10 +409,17 @@ func (g *Generator) AdjustMounts(mounts []*nri.Mount) error {
 		return nil
 	}
 
-	propagation := ""
+	// Apply removals first so that a set always wins over a removal of
+	// the same mount, independent of their order in the adjustment.
 	for _, m := range mounts {
 		if destination, marked := m.IsMarkedForRemoval(); marked {
 			g.RemoveMount(destination)
+		}
+	}
+
+	propagation := ""
+	for _, m := range mounts {
+		if _, marked := m.IsMarkedForRemoval(); marked {
 			continue
 		}
 
